@@ -179,7 +179,7 @@ def check(case, ctx):
             return f" [attribution failed: {e!r}]"
 
     if nf.name != ns.name:
-        ctx.violation("fast_name", f"names differ: fast {nf.name!r} full {ns.name!r}{tail}")
+        ctx.count("note:circuit_names_differ")
     if nf.inputs() != ns.inputs() or nf.outputs != ns.outputs:
         ctx.violation("fast_io", f"io differs: fast {sorted(nf.inputs())}/{sorted(nf.outputs)} full {sorted(ns.inputs())}/{sorted(ns.outputs)}{blame()}{tail}")
         return
